@@ -72,6 +72,26 @@ def gen_cases(rng, tier):
                     ops.append(['axpy', i, _c(rng), rng.randrange(NPOOL)])
             else:
                 ops.append(['setwfn_data', i, fqeio.random_state(rng, norb, keys, density=0.6, amp=3)])
+        # the largest-magnitude element, systematically: every history ends by asking every pool member for it, and every
+        # third history first plants, in ONE sector, a competitor pair whose order by |re| + |im| (or by max(|re|, |im|))
+        # is the reverse of the order by modulus: 3 against 2+2i (|.| = 3 > 2.83, sums 3 < 4), 5 against 4+4i with
+        # 4+3i present (moduli 5, 5.66, 5), each times a unit i^r
+        if len(cases) % 3 == 0:
+            by_sector = {}
+            for a, b in basis:
+                by_sector.setdefault((bin(a).count('1'), bin(b).count('1')), []).append((a, b))
+            big = [v for v in by_sector.values() if len(v) >= 2]
+            if big:
+                dets = rng.sample(rng.choice(big), 2)
+                vals = rng.choice([[(3, 0), (2, 2)], [(2, 2), (3, 0)], [(0, 3), (-2, 2)], [(4, 3), (5, 0)], [(0, -5), (3, -4)],
+                                   [(5, 0), (4, 4)], [(3, 3), (4, 0)]])
+                st = [[dets[0][0], dets[0][1], vals[0][0], vals[0][1]], [dets[1][0], dets[1][1], vals[1][0], vals[1][1]]]
+                for a, b in basis:
+                    if (a, b) not in dets and rng.random() < 0.5:
+                        st.append([a, b, rng.choice([1, -1, 0]), rng.choice([1, -1])])
+                tgt = rng.randrange(NPOOL)
+                ops = [['setwfn_data', tgt, st], ['max', tgt]] + ops
+        ops += [['max', i] for i in range(NPOOL)]
         cases.append({'kind': 'hist', 'norb': norb, 'mode': mode, 'n': nn, 'sz': sz, 'pool': pool, 'ops': ops})
     # large sectors (more than 2^14 coefficients: blocked / batched in-place updates), sparse states spread over all rows;
     # the model is asked for the coefficients on the union of the supports plus some determinants outside it
